@@ -299,7 +299,10 @@ class TemplateWorld:
         sut.call_style = None
         sut.device = self.device
         sut.register = self.direct_register(qubits)
-        sut.seq = Sequence(sut.register, self.device)
+        try:
+            sut.seq = Sequence(sut.register, self.device)
+        except Exception as e:  # noqa: BLE001 - the device refuses this register
+            return None, ("Sequence", type(e).__name__)
         sut.vars = {}
         sut.restarts = 0
         first_err = None
@@ -768,6 +771,10 @@ def gen_template_world(seed: int, prop: str, run: int, profile: dict) -> dict:
                 chosen = vr.sample(range(nt), k)
                 maps.append({q: t for q, t in zip(reg["ids"][:k], chosen)})
         world["mappings"] = maps
+        if dev["kind"] != "builtin" and nq >= 2 and vr.random() < profile.get("tight_atom_num_p", 0.0):
+            # the device accepts fewer atoms than the mappable register has ids: only
+            # a partial mapping can be built, as with a concrete register
+            dev["max_atom_num"] = nq - 1
     return world
 
 
@@ -794,6 +801,8 @@ def gen_history(rng: random.Random, world: dict, profile: dict) -> list:
             hist.append({"op": "t_sibling", "kind": G.pick(rng, profile.get("sibling_kinds", ["switch_register", "switch_device"])), "i": rng.randrange(na), "m": rng.randrange(nm)})
             if profile.get("sibling_label") and rng.random() < 0.5:
                 hist[-1]["rename"] = True
+            if profile.get("sibling_extend_p") and rng.random() < profile["sibling_extend_p"]:
+                hist[-1]["extend"] = True
         elif k == "restart":
             hist.append({"op": "t_restart", "kind": G.pick(rng, ["abstract", "abstract", "legacy"])})
         elif k == "built_restart":
@@ -988,6 +997,19 @@ class TemplateRun:
                 self.compare_build(i, S, self._vals(op["i"]), self._qubits(op["m"]), label, who="sibling-build")
                 self.stats["probe/sibling_build"] += 1
                 self.stats[f"probe/sibling_build_{op['kind']}"] += 1
+                if op.get("extend") and S is not T:
+                    # the sibling is extended (a new variable, used in a delay): the
+                    # template it was derived from is another object and stays as it was
+                    try:
+                        xv = S.declare_variable("sib_extra", dtype=int)
+                        chs = [n for n, c in S.declared_channels.items()]
+                        if chs and not S.is_measured():
+                            S.delay(xv, chs[0])
+                        self.stats["probe/sibling_extended"] += 1
+                    except Exception as e:  # noqa: BLE001
+                        self.stats[f"sibling_extend_refused/{type(e).__name__}"] += 1
+                    vals, qubits = self._vals(op["i"]), self._qubits(op["m"])
+                    self.compare_build(i, T, vals, qubits, "C08", who="build-after-sibling-extended")
             self.check_template_unchanged(i, "a sibling's build")
         elif k == "t_restart":
             self.restart(i, op)
